@@ -26,9 +26,10 @@ ASSUMPTIONS = ['a "step" is ArmV6.emulate_cycle(); instance creation is ArmV6(co
                'the trace compares architectural state only (not opcode/opcode_len/executed_opcode scratch fields)']
 SHARD_TIMEOUT = {'quick': 900, 'thorough': 7200}
 
-CFGS = ['v6-pmsa-sec', 'v7-vmsa-sec', 'v7-pmsa-r', 'v4-pmsa', 'v5-pmsa', 'v7-vmsa-virt', 'v6-pmsa']
+CFGS = ['v6-pmsa-sec', 'v7-vmsa-sec', 'v7-pmsa-r', 'v4-pmsa', 'v5-pmsa', 'v7-vmsa-virt', 'v6-pmsa', 'v6-pmsa-sec-rv', 'v7-vmsa-sec-rv']
 PAIRS_DIFF = [('v6-pmsa-sec', 'v7-vmsa-sec'), ('v4-pmsa', 'v7-pmsa-r'), ('v7-pmsa-r', 'v6-pmsa-sec'),
-              ('v5-pmsa', 'v7-vmsa-virt'), ('v6-pmsa', 'v6-pmsa-sec'), ('v7-vmsa-sec', 'v4-pmsa')]
+              ('v5-pmsa', 'v7-vmsa-virt'), ('v6-pmsa', 'v6-pmsa-sec'), ('v7-vmsa-sec', 'v4-pmsa'),
+              ('v6-pmsa-sec', 'v6-pmsa-sec-rv'), ('v7-vmsa-sec-rv', 'v7-vmsa-sec'), ('v6-pmsa-sec-rv', 'v7-vmsa-sec-rv')]
 
 
 def plan(tier, seed):
